@@ -62,7 +62,7 @@ class Check(HCheck):
         d = 4 if thorough else 3
         # sibling pages whose stems share their first 74 bytes (order decided in the tail blocks)
         ll = [A + L.long_stem(n) for n in (75, 76, 148, 149)] + [A + b"p:" + b"a" * 72 + b"\x00\x00|", A + b"p:" + b"a" * 71 + b"|"]
-        lops = [al.page(u, i % 2 == 0) for i, u in enumerate(ll)] + [al.page(ll[1] + b"p:k|")]
+        lops = [al.page(u, i % 2 == 0) for i, u in enumerate(ll)] + [al.pages((ll[1] + b"p:k|", ll[1] + b"p:m|", ll[1] + b"p:z|"), True), al.pages((ll[3] + b"p:1|", ll[3] + b"p:2|", ll[0] + b"p:1|"))]
         # 40 siblings inserted in ascending order: a right spine, tokens whose path has 40 steps
         deep_root = (al.page(A), al.pages(tuple(A + b"p:s%03d|" % i for i in range(40)), False), al.page(Sx, True))
         dops = [al.page(A + b"p:s020x|", True), al.create(A + b"p:s010|"), al.page(A + b"p:s039|p:k|")]
